@@ -274,6 +274,27 @@ func genCase(r *rand.Rand, name string, nSets, nCells, nBlocks, T int) *modelCas
 				mc.Inputs[b][0][t] = uni(r, 0, 100)
 			}
 		}
+		// ... and a third of them sit EXACTLY on an interior point of the first set's table (two segments meet there:
+		// whichever the lookup picks, the answer is the table value)
+		for pi, pd := range mc.Desc.Parameters {
+			if pd.Name != "inputAmount" || len(mc.PVals[pi]) == 0 {
+				continue
+			}
+			var interior []float64
+			kn := mc.PVals[pi][0]
+			for k := 1; k+1 < len(kn); k++ {
+				if kn[k] > 0 && kn[k] <= 100 {
+					interior = append(interior, kn[k])
+				}
+			}
+			for b := range mc.Inputs {
+				for t := range mc.Inputs[b][0] {
+					if len(interior) > 0 && r.Intn(3) == 0 {
+						mc.Inputs[b][0][t] = interior[r.Intn(len(interior))]
+					}
+				}
+			}
+		}
 	}
 	// initial states: structure from the model's own InitialiseStates, free entries randomised
 	mm := mc.newModel(mc.paramsArray())
